@@ -397,6 +397,9 @@ func (chs *ClientHelloSpec) ImportTLSClientHello(data map[string][]byte) error {
 
 				// need to add (zero) data per each key share, [10, 10, 0, 1] => [10, 10, 0, 1, 0]
 				fixedData := make([]byte, 0)
+				if len(data["key_share"])%4 != 0 {
+					return errors.New("key_share must consist of (group, length) uint16 pairs")
+				}
 				for i := 0; i < len(data["key_share"]); i += 4 {
 					fixedData = append(fixedData, data["key_share"][i:i+4]...)
 					for j := 0; j < int(data["key_share"][i+3]); j++ {
